@@ -12,7 +12,10 @@ static cl::opt<std::string> Mode("mode", cl::desc("seq|res|instr"), cl::init("se
 static cl::opt<std::string> Prefix("prefix", cl::desc("root prefix: <p>main | <p>init,<p>thread_<i>,<p>final"), cl::init("verif_"));
 static cl::opt<std::string> KnownFile("known", cl::desc("file listing external functions modelled by the runtime"), cl::init(""));
 static cl::opt<std::string> Benign("benign", cl::desc("comma separated mangled-name prefixes stubbed as no-ops returning zero"),
-    cl::init("_ZN3fmt,_ZNK3fmt,__assert_fail,_ZNSt3_V214error_categoryD,_ZNSt8ios_base4Init"));
+    cl::init("_ZN3fmt,_ZNK3fmt,__assert_fail,_ZNSt3_V214error_categoryD,_ZNSt8ios_base4Init,_ZNSt18condition_variableC,_ZNSt18condition_variableD"));
+static cl::opt<bool> AllowCycles("allow-cycles", cl::desc("res mode: tolerate static call cycles (through loose indirect-call targets); real re-entry asserts"), cl::init(true));
+static cl::opt<std::string> Opaque("opaque", cl::desc("comma separated mangled-name prefixes of DEFINED functions treated as environment stubs"), cl::init("_ZN3fmt,_ZNK3fmt"));
+static cl::opt<bool> NoExprInline("no-expr-inline", cl::desc("keep one C variable per IR value"), cl::init(false));
 static cl::opt<bool> Chain("chain", cl::desc("res mode: skip-chain layout"), cl::init(false));
 static cl::opt<std::string> Meta("meta", cl::desc("metadata json output"), cl::init(""));
 
@@ -63,6 +66,80 @@ static std::string jsonEsc(const std::string& s)
 }
 
 // ---- instr mode: insert native yield / change-tracking calls around visible operations -------
+// native replay: harness threads are coroutines on ONE OS thread, so thread_local globals must be switched with
+// them: every thread_local global becomes an array indexed by the current harness thread slot (as in the encoding)
+static Value* rewriteTlsOperand(Value* V, Instruction* Before, DenseMap<GlobalVariable*, GlobalVariable*>& slots, FunctionCallee tid)
+{
+    if (auto* G = dyn_cast<GlobalVariable>(V))
+    {
+        auto it = slots.find(G);
+        if (it == slots.end()) return nullptr;
+        IRBuilder<> B(Before);
+        Value* c = B.CreateCall(tid, {});
+        Value* idx[] = {ConstantInt::get(Type::getInt64Ty(V->getContext()), 0), B.CreateZExt(c, Type::getInt64Ty(V->getContext()))};
+        return B.CreateInBoundsGEP(it->second->getValueType(), it->second, idx);
+    }
+    if (auto* CE = dyn_cast<ConstantExpr>(V))
+    {
+        bool any = false;
+        SmallVector<Value*, 4> ops;
+        for (Value* Op : CE->operands())
+        {
+            Value* N = rewriteTlsOperand(Op, Before, slots, tid);
+            ops.push_back(N ? N : Op);
+            any |= N != nullptr;
+        }
+        if (!any) return nullptr;
+        Instruction* I = CE->getAsInstruction();
+        for (unsigned i = 0; i < ops.size(); ++i) I->setOperand(i, ops[i]);
+        I->insertBefore(Before);
+        return I;
+    }
+    return nullptr;
+}
+static int rewriteTls(Module& M)
+{
+    LLVMContext& X = M.getContext();
+    DenseMap<GlobalVariable*, GlobalVariable*> slots;
+    for (GlobalVariable& G : M.globals())
+        if (G.isThreadLocal() && !G.isDeclaration())
+        {
+            auto* AT = ArrayType::get(G.getValueType(), 8);
+            Constant* init = ConstantAggregateZero::get(AT);
+            if (G.hasInitializer() && !G.getInitializer()->isNullValue() && !isa<UndefValue>(G.getInitializer()))
+            {
+                std::vector<Constant*> el(8, G.getInitializer());
+                init = ConstantArray::get(AT, el);
+            }
+            slots[&G] = new GlobalVariable(M, AT, false, GlobalValue::InternalLinkage, init, G.getName() + ".slots");
+        }
+    if (slots.empty()) return 0;
+    FunctionCallee tid = M.getOrInsertFunction("verif_tid", FunctionType::get(Type::getInt32Ty(X), false));
+    int n = 0;
+    for (Function& F : M)
+        for (BasicBlock& BB : F)
+            for (Instruction& I : BB)
+            {
+                if (auto* P = dyn_cast<PHINode>(&I))
+                {
+                    for (unsigned i = 0; i < P->getNumIncomingValues(); ++i)
+                        if (Value* N = rewriteTlsOperand(P->getIncomingValue(i), P->getIncomingBlock(i)->getTerminator(), slots, tid))
+                        {
+                            P->setIncomingValue(i, N);
+                            ++n;
+                        }
+                    continue;
+                }
+                for (unsigned i = 0; i < I.getNumOperands(); ++i)
+                    if (Value* N = rewriteTlsOperand(I.getOperand(i), &I, slots, tid))
+                    {
+                        I.setOperand(i, N);
+                        ++n;
+                    }
+            }
+    return n;
+}
+
 static int instrument(Module& M)
 {
     LLVMContext& X = M.getContext();
@@ -144,8 +221,15 @@ int main(int argc, char** argv)
     std::error_code EC;
 
     Ctx C(M);
+    {
+        SmallVector<StringRef, 8> op;
+        StringRef(Opaque).split(op, ',');
+        for (StringRef o : op)
+            if (!o.empty() && Mode != "instr") C.opaquePrefixes.push_back(o.str());    // the native build runs the real formatting code
+    }
     C.res = (Mode == "res");
     C.chain = Chain;
+    C.exprInline = !NoExprInline;
     C.prefix = Prefix;
 
     // roots
@@ -205,7 +289,7 @@ int main(int argc, char** argv)
         {
             Function* F = wl.back();
             wl.pop_back();
-            if (F->isDeclaration()) continue;
+            if (C.isExt(F)) continue;
             X.funcs.push_back(F);
             for (Instruction& I : instructions(*F))
             {
@@ -316,6 +400,8 @@ int main(int argc, char** argv)
                 G.setComdat(nullptr);
             }
         int n = instrument(M);
+        int ntls = rewriteTls(M);
+        if (ntls) errs() << "ll2c: rewrote " << ntls << " uses of thread_local globals to per-slot storage\n";
         if (verifyModule(M, &errs())) die("instrumented module does not verify");
         raw_fd_ostream out(Output, EC, sys::fs::OF_Text);
         M.print(out, nullptr);
@@ -388,7 +474,10 @@ int main(int argc, char** argv)
                         {
                             std::string cyc;
                             for (Function* S : stack) cyc += "\n    " + demangle(S->getName().str());
-                            die("recursion among resumable functions via " + demangle(T->getName().str()) + ":" + cyc);
+                            if (!AllowCycles) die("recursion among resumable functions via " + demangle(T->getName().str()) + ":" + cyc);
+                            errs() << "ll2c: warning: static call cycle among resumable functions via " << demangle(T->getName().str())
+                                   << " (re-entry is checked dynamically)\n";
+                            continue;
                         }
                         if (st[T] == 0) dfs(T);
                     }
